@@ -181,7 +181,15 @@ func sGenSet(T *sim.Tape, allowNoDen bool) *sSet {
 					}
 				}
 			}
-			if !allowNoDen && e > 0 && T.Intn(6, "same-instant-experiment") == 0 {
+			atPrev := 0
+			if e > 0 {
+				for _, o := range s.exps {
+					if o.Equal(s.exps[e-1]) {
+						atPrev++
+					}
+				}
+			}
+			if !allowNoDen && e > 0 && atPrev < 4 && T.Intn(6, "same-instant-experiment") == 0 {
 				// (COMBINE only, where no experiment has to win:) a second experiment at the very instant of the
 				// previous one, its stamp spelled differently - still an experiment of its own
 				at = s.exps[e-1]
@@ -213,13 +221,19 @@ func sGenSet(T *sim.Tape, allowNoDen bool) *sSet {
 	}
 	for _, e := range s.sameInstant {
 		sp := sSpellings(s.exps[e])
-		for i := range sp {
-			if sp[i] == s.spell[e-1] {
-				s.spell[e] = sp[(i+1)%len(sp)] // same instant, another spelling
+		// same instant, a spelling that no earlier experiment at this instant has: two experiments whose stamps are
+		// the same text are one experiment to the builder (at most four share an instant, there are five spellings)
+		used := map[string]bool{}
+		for o := 0; o < e; o++ {
+			if s.exps[o].Equal(s.exps[e]) {
+				used[s.spell[o]] = true
 			}
 		}
-		if s.spell[e] == s.spell[e-1] {
-			s.spell[e] = sp[0]
+		for i := range sp {
+			if !used[sp[i]] {
+				s.spell[e] = sp[i]
+				break
+			}
 		}
 	}
 	for p := range s.points {
@@ -808,6 +822,13 @@ func c18Run(t *testing.T, r *sim.Run, tier string) {
 					}
 					break
 				}
+			}
+			if f := os.Getenv("VERIF_DEBUG_DUMP"); f != "" { // development aid: the two dumps in full
+				var all strings.Builder
+				for _, res := range s.results {
+					all.WriteString(res.text())
+				}
+				os.WriteFile(f, []byte("GOT\n"+got+"\nWANT\n"+want+"\nRESULTS\n"+all.String()), 0o644)
 			}
 			r.Fail("series", r.Lane+"/"+sig, "series built in order %d differ from what the result set prescribes (policy %s):\n%s", o, r.Lane, first)
 		}
